@@ -366,7 +366,9 @@ func (g *xGen) literal(t *xTy, depth int, allowVar bool) *xValue {
 		n := g.r.Intn(4)
 		v := &xValue{Kind: "list"}
 		for i := 0; i < n; i++ {
-			v.List = append(v.List, g.literal(t.Of, depth, false))
+			// items that are input-object literals may mention variables in their fields (a variable below an
+			// object below a list literal); a variable as the item itself is not generated
+			v.List = append(v.List, g.literal(t.Of, depth, allowVar))
 		}
 		return v
 	}
